@@ -66,13 +66,25 @@ def run(ctx):
     cc = res.clause('C20.c', 'R-AGREE', 'codec pair, envelope keys, placeholder constant', floor=4)
     cd = res.clause('C20.d', 'R-PROV', 'paths from one function of the current call; restore writes on every path', floor=4)
     ce = res.clause('C20.e', 'R-DECISION', 'limit source order', floor=1)
-    icpt = fi.lookup('_intercept_file')
-    above = fi.lookup('_is_file_above_size_limit')
-    ser = fi.lookup('_serialize_file')
-    des = fi.lookup('_deserialize_file')
-    ph = fi.lookup('_above_limit_result')
-    gp = fi.lookup('_get_file_path')
-    calc = fi.lookup('_calculate_max_intercepted_size_limit')
+    def one(pred, role):
+        ms = [m for m in fi.methods.values() if m.name != '__init__' and pred(m)]
+        if len(ms) != 1:
+            raise AnalysisError('anchor-lost role=%s (candidates %s)' % (role, [m.name for m in ms]))
+        return ms[0]
+
+    def has_call(m, *names):
+        return any(isinstance(n, ast.Call) and ((isinstance(n.func, ast.Attribute) and n.func.attr in names) or
+                                                (isinstance(n.func, ast.Name) and n.func.id in names)) for n in ast.walk(m.node))
+    pi = inp.lookup('prepare_input_for_recording')
+    called_by_prepare = {n.func.attr for n in ast.walk(pi.node) if isinstance(n, ast.Call) and self_attr(n.func)}
+    icpt = one(lambda m: m.name in called_by_prepare and has_call(m, 'open'), 'interception routine')
+    above = one(lambda m: has_call(m, 'getsize'), 'size predicate')
+    ser = one(lambda m: has_call(m, 'b64encode'), 'serialize')
+    des = one(lambda m: has_call(m, 'b64decode'), 'deserialize')
+    ph = one(lambda m: m is not des and any(isinstance(n, ast.Attribute) and n.attr == 'ABOVE_LIMIT_CONTENT' for n in ast.walk(m.node)) and
+             any(isinstance(n, ast.Return) and isinstance(n.value, ast.Dict) for n in ast.walk(m.node)), 'placeholder result')
+    gp = one(lambda m: any(self_attr(n) == 'file_path_arg_name' for n in ast.walk(m.node)), 'path function')
+    calc = one(lambda m: has_call(m, 'getenv'), 'limit source')
     for nm, m in (('_intercept_file', icpt), ('size predicate', above), ('serialize', ser), ('deserialize', des), ('placeholder', ph), ('path', gp), ('limit', calc)):
         if m is None:
             raise AnalysisError('anchor-lost method role=%s' % nm)
@@ -128,9 +140,10 @@ def run(ctx):
     if cmps:
         side = cmps[0].comparators[0] if self_attr(cmps[0].left) == 'intercepted_size_limit' else cmps[0].left
         e = defs.get(side.id) if isinstance(side, ast.Name) else side
-        unit_ok = isinstance(e, ast.Call) and self_attr(e.func) == '_mb_size' and e.args and isinstance(e.args[0], ast.Call) and \
-            norm(e.args[0].func).endswith('getsize')
-    mb = fi.lookup('_mb_size')
+        mbs = [m for m in fi.methods.values() if any(isinstance(n, ast.BinOp) and isinstance(n.op, ast.Div) and '1024' in norm(n.right) for n in ast.walk(m.node))]
+    mb = mbs[0] if len(mbs) == 1 else None
+    unit_ok = mb is not None and isinstance(e, ast.Call) and self_attr(e.func) == mb.name and e.args and isinstance(e.args[0], ast.Call) and \
+        norm(e.args[0].func).endswith('getsize')
     conv_ok = mb is not None and any(isinstance(n, ast.BinOp) and isinstance(n.op, ast.Div) and '1024' in norm(n.right) for n in ast.walk(mb.node))
     ca.instance('size converted from bytes to MB by one conversion before the comparison with the MB limit', above.qualname, unit_ok and conv_ok)
     if not (unit_ok and conv_ok):
